@@ -29,7 +29,7 @@ SPEC = dict(
     component="samplerreg",
     props_module="Refinery.Props.C12",
     gen_module="Refinery.Gen.Samplerreg",
-    quick=dict(cases=1600, len=40, shards=4),
+    quick=dict(cases=1000, len=40, shards=4),
     thorough=dict(cases=48000, len=60, shards=16),
     nontrivial=nontrivial,
     rule="cases = 1-3 generated rules configurations (top-level and rules-based environments, all five dynsampler-backed "
